@@ -19,14 +19,15 @@ class Script:
     parameter and of how often that parameter value has been requested (so it does not depend on the order in which
     different parameters are asked for)"""
 
-    def __init__(self):
+    def __init__(self, salt=""):
         self.count = {}
         self.log = []          # (generator kind, distribution, parameter, value)
+        self.salt = salt       # a different salt is a different random stream
 
     def _u(self, kind, key):
         n = self.count.get((kind, key), 0)
         self.count[(kind, key)] = n + 1
-        h = hashlib.sha256(("%s|%s|%d" % (kind, key, n)).encode()).digest()
+        h = hashlib.sha256(("%s%s|%s|%d" % (self.salt, kind, key, n)).encode()).digest()
         return (int.from_bytes(h[:6], "big") + 1) / float(2 ** 48 + 2)
 
     def exp_scale(self, scale, who="reference"):
